@@ -64,6 +64,13 @@ PROPS = {
                 gen=[dict(bag="mixed", depth=20, quick=200, thorough=3000, mode="authz"),
                      dict(bag="meta", depth=16, quick=60, thorough=1000, mode="authz")],
                 classes=["sess", "pubsub", "meta", "metaapi", "rpcreply", "rpcroute", "rpcintr"]),
+    "C11": dict(family="core", realms=True,
+                mc=dict(kinds=["join", "sub", "pub", "reg", "call", "yield", "leave", "kill"], inv=["TablesOK", "C05_NoTrace"],
+                        quick=dict(steps=4, nsess=2), thorough=dict(steps=5, nsess=3)),
+                gen=[dict(bag="mixed", depth=14, quick=200, thorough=2400),
+                     dict(bag="kill", depth=14, quick=100, thorough=1200),
+                     dict(bag="meta", depth=14, quick=100, thorough=1200)],
+                classes=["sess", "pubsub", "meta", "metaapi", "rpcreply", "rpcroute", "rpcintr", "snap"]),
     "C12": dict(family="core",
                 mc=dict(kinds=["join", "sub", "pub", "reg", "call", "leave", "disc"],
                         inv=["TablesOK", "C12_EventDisclosure", "C12_CallerDisclosure", "C12_RefusedDisclosure"],
@@ -142,6 +149,45 @@ def corrupt_trace(evs):
     return None, None
 
 
+def combine_realms(scns, seed, prop):
+    """C11: two or three independently generated single-realm scenarios run
+    simultaneously in one router, with identical URIs and colliding ids; the
+    second realm is added at run time, the third is created from the realm
+    template, and one realm is removed in the middle"""
+    rnd = random.Random(seed)
+    out = []
+    pool = list(scns)
+    n = 0
+    while len(pool) >= 2:
+        k = 3 if len(pool) >= 3 and rnd.random() < 0.5 else 2
+        parts, pool = pool[:k], pool[k:]
+        n += 1
+        realms, queues = [], []
+        for r, sc in enumerate(parts):
+            cfg = dict(sc["cfg"])
+            cfg["late"] = (r == 1)
+            cfg["template"] = (r == 2)
+            realms.append(cfg)
+            q = []
+            for st in sc["steps"]:
+                st = json.loads(json.dumps(st))
+                st["r"] = r
+                if st.get("s"):
+                    st["s"] = "r%d%s" % (r, st["s"])
+                q.append(st)
+            if r == 1:
+                q.insert(0, {"op": "addrealm", "r": 1})
+            queues.append(q)
+        steps = []
+        while any(queues):
+            r = rnd.choice([i for i, q in enumerate(queues) if q])
+            steps.append(queues[r].pop(0))
+        victim = rnd.randrange(k)
+        steps.insert(rnd.randrange(len(steps) // 2, len(steps) + 1), {"op": "rmrealm", "r": victim})
+        out.append({"id": "%s.realms%d.%04d" % (prop, seed, n), "realms": realms, "steps": steps, "epilogue": True})
+    return out
+
+
 def run_core(prop, spec, tier, seed, work, replay):
     known = [k for k in known_findings(prop) if k.get("status") == "known" and k.get("deviation")]
     devs = []      # the specification the properties demand: no deviation enabled
@@ -168,7 +214,12 @@ def run_core(prop, spec, tier, seed, work, replay):
                 s["epilogue"] = True
                 s["poison"] = bool(spec.get("poison"))
             scns += part
+        if spec.get("realms"):
+            scns = combine_realms(scns, seed, prop)
     byid = {s["id"]: s for s in scns}
+    for s in list(scns):
+        for r in range(len(s.get("realms") or [])):
+            byid["%s#%d" % (s["id"], r)] = s
     tf, crashes = run_exec(work, binary, scns, "ex")
     for c in crashes:
         violations.append({"kind": "crash", "scn": c["scn"], "scenario": byid[c["scn"]], "stderr": c["stderr"],
